@@ -65,7 +65,7 @@ func runC03(c *Ctx) {
 	var refresh *ssa.Call
 	for _, call := range callsIn(add) {
 		if cv, ok := call.(*ssa.Call); ok {
-			if callee := cv.Call.StaticCallee(); callee != nil && recvNamed(callee) == ak && w.Expr(cv.Call.Args[0]) == "p0" && errorResultIndex(callee) == 0 {
+			if callee := cv.Call.StaticCallee(); callee != nil && recvNamed(callee) == ak && w.Expr(cv.Call.Args[0]) == "p0" && errorResultIndex(callee) >= 0 && len(w.invokeOfDeep(callee, "Remove")) > 0 {
 				refresh = cv
 			}
 			// ... or a function of the package given the key's agent, in whose tree identities are removed
@@ -77,6 +77,14 @@ func runC03(c *Ctx) {
 					}
 				}
 			}
+		}
+	}
+	// the error the refresh step reports: the call itself, or its error component
+	var refreshErr ssa.Value
+	if refresh != nil {
+		refreshErr = refresh
+		if callee := refresh.Call.StaticCallee(); callee != nil && callee.Signature.Results().Len() > 1 {
+			refreshErr = extractOf(refresh, errorResultIndex(callee))
 		}
 	}
 	nAdd := 0
@@ -193,7 +201,7 @@ func runC03(c *Ctx) {
 					continue
 				}
 				if refresh != nil {
-					if y, _, ok := nilTest(l); ok && strip(y) == ssa.Value(refresh) {
+					if y, _, ok := nilTest(l); ok && (strip(y) == ssa.Value(refresh) || (refreshErr != nil && strip(y) == refreshErr)) {
 						continue
 					}
 				}
@@ -552,12 +560,12 @@ func runC03(c *Ctx) {
 	if refresh != nil {
 		ok := true
 		for _, cv := range invokeOf(add, "Add") {
-			isNil, known := f.KnownNil(cv.Block(), refresh)
+			isNil, known := f.KnownNil(cv.Block(), refreshErr)
 			if !InstrDominates(refresh, cv) || !known || !isNil {
 				ok = false
 			}
 		}
-		c.Check(ok && w.ErrEdgeEnds(add, refresh), "R4.order", "AddCertsToAgent|refresh precedes every add and its error is returned", w.Pos(refresh.Pos()), "dominates with must-fact err == nil", "certificates can be added although the refresh did not run or failed")
+		c.Check(ok && w.ErrEdgeEnds(add, refreshErr), "R4.order", "AddCertsToAgent|refresh precedes every add and its error is returned", w.Pos(refresh.Pos()), "dominates with must-fact err == nil", "certificates can be added although the refresh did not run or failed")
 	}
 	// a run that fails while signing leaves the previous generation in place: the certificate step (which starts by
 	// removing it) is not reachable once a Sign has failed, nor once Generate has failed
